@@ -13,7 +13,7 @@ func init() { register("C20", checkC20) }
 const (
 	rC20Naive = "ORDABS.naive-loop"
 	rC20Semi  = "ORDABS.semi-naive-loop"
-	rC20Deleg = "TABLE.shared-premise-helpers"
+	rC20Deleg = "ORDABS.clause-evaluation-agrees"
 	rC20Delta = "ORDABS.delta-rules"
 	rC20TX    = "TX.evaluators"
 )
@@ -21,12 +21,12 @@ const (
 func checkC20(c *core.Ctx) {
 	c.Rule(rC20Naive, "naiveEngine.eval, read from source and evaluated over the abstract programs with the clause evaluation replaced by the program's own meaning, returns with the store equal to the least model", 6)
 	c.Rule(rC20Semi, "(*engine).eval reaches the same least model on the same abstract programs (so both evaluators agree there)", 6)
-	c.Rule(rC20Deleg, "both evaluators give negated atoms, equalities, inequalities and the head to the same helpers (premiseNegAtom, premiseEq, premiseIneq, functional.EvalAtom), and evaluate positive atoms through functional.EvalAtom, builtin.Decide and unionfind.UnifyTermsExtend", 5)
+	c.Rule(rC20Deleg, "naiveEngine.oneStepEvalClause and (*engine).oneStepEvalClause are read from source and evaluated together with everything below them (premise helpers, functional.EvalAtom/EvalExpr, builtin.Decide, union-find; only the store is a set model) on every safe clause of a family (one to three premises: positive, negated, wildcard, repeated-variable, constant-argument and built-in atoms, equalities with function expressions on either side, inequalities) over three stores: they derive the same facts", 1)
 	c.Rule(rC20Delta, "the semi-naive evaluator's delta rules cover every positive occurrence of a predicate of the stratum (otherwise it computes less than the naive one)", 1)
 	c.Rule(rC20TX, "the naive premise switch covers atoms, negated atoms, equalities and inequalities", 1)
 	c20Naive(c)
 	c01Loop(c, rC20Semi, true)
-	c20Delegation(c)
+	clauseEvalRule(c, rC20Deleg, "naive")
 	c01DeltaRules(c, rC20Delta)
 	termKindCoverage(c, rC20TX, []txSpec{{"engine", "naiveEngine.oneStepEvalPremise", []string{"ast.Atom", "ast.NegAtom", "ast.Eq", "ast.Ineq"}, "a premise kind without a case yields no solutions in the naive evaluator only"}})
 }
@@ -74,46 +74,5 @@ func c20Naive(c *core.Ctx) {
 			}
 		}
 		c.Check(bad == "", rC20Naive, f.Name+":"+p.name, f.Decl.Pos(), fmt.Sprintf("least model reached after %d clause evaluations", e.clauses), bad)
-	}
-}
-
-func c20Delegation(c *core.Ctx) {
-	nf := c.MustFunc(rC20Deleg, "engine", "naiveEngine.oneStepEvalPremise")
-	sf := c.MustFunc(rC20Deleg, "engine", "engine.oneStepEvalPremise")
-	if nf == nil || sf == nil {
-		return
-	}
-	helper := map[string]string{"ast.NegAtom": "engine.premiseNegAtom", "ast.Eq": "engine.premiseEq", "ast.Ineq": "engine.premiseIneq"}
-	for _, f := range []*core.Func{nf, sf} {
-		info := f.Pkg.TypesInfo
-		for _, ts := range core.TypeSwitches(info, f.Decl.Body) {
-			if core.TypeName(ts.TagType) != "ast.Term" {
-				continue
-			}
-			for kind, h := range helper {
-				cc := ts.Cases[kind]
-				if cc == nil {
-					continue
-				}
-				if f == sf {
-					if !core.ContainsCall(info, cc, false, h) {
-						c.Bad(rC20Deleg, f.Name+":"+kind, cc.Pos(), "the semi-naive evaluator no longer gives %s to %s; the shared helper was the only argument for the two evaluators agreeing", kind, h)
-					}
-					continue
-				}
-				c.Check(core.ContainsCall(info, cc, false, h), rC20Deleg, f.Name+":"+kind, cc.Pos(), "delegates to "+h, "the naive evaluator evaluates "+kind+" with its own code instead of "+h+": nothing ties its meaning to the semi-naive evaluator's")
-			}
-			if f == nf {
-				if cc := ts.Cases["ast.Atom"]; cc != nil {
-					okc := core.ContainsCall(info, cc, true, "engine.premiseAtom") ||
-						(core.ContainsCall(info, cc, true, "functional.EvalAtom") && core.ContainsCall(info, cc, true, "builtin.Decide") && core.ContainsCall(info, cc, true, "unionfind.UnifyTermsExtend"))
-					c.Check(okc, rC20Deleg, f.Name+":ast.Atom", cc.Pos(), "positive atoms: EvalAtom, then Decide for built-ins or GetFacts + UnifyTermsExtend", "the naive evaluator's positive-atom case neither calls premiseAtom nor the same three primitives it is built from")
-				}
-			}
-		}
-	}
-	nc := c.MustFunc(rC20Deleg, "engine", "naiveEngine.oneStepEvalClause")
-	if nc != nil {
-		c.Check(core.ContainsCall(nc.Pkg.TypesInfo, nc.Decl.Body, true, "functional.EvalAtom"), rC20Deleg, nc.Name+":head", nc.Decl.Pos(), "the head is instantiated with functional.EvalAtom", "the naive evaluator instantiates the head without functional.EvalAtom (function expressions in heads are not evaluated)")
 	}
 }
